@@ -8,6 +8,8 @@ import RP.Model.HandsIso
 * `children <std|short> <pocket> <public>` → `n=<count> ck=<order checksum>` or `panic`
 * `iso <std|short> <street 0..3> <n>`    → `n=<count> ck=<order checksum>` of the first `n` items of the
   isomorphism iterator (C05's `isCanonical` model plugged in; `n` above the class count = all)
+* `isopocket <std|short> <street 1..3> <pocket> <n>` → `n=<count> ck=<checksum>` of the first `n`
+  canonical boards of that pocket (one pocket's segment of the class list, `C06_classes_by_pocket`)
 * `niso <std|short> <street 0..3>`      → the generated `n_isomorphisms` entry (proved equal to the
   Burnside value in `RP.C06.C06_burnside_arith`)
 * `nobs <std|short> <street>` / `nchildren <std|short> <street>` → generated table entries -/
@@ -53,6 +55,11 @@ def handle (line : String) : String :=
     match deckOf d, num? st, num? n with
     | some short, some st, some n => if st > 3 then "bad-op" else fmtSum (classesSummary short st n)
     | _, _, _ => "bad-op"
+  | ["isopocket", d, st, p, n] =>
+    match deckOf d, num? st, num? p, num? n with
+    | some short, some st, some p, some n =>
+      if st > 3 ∨ p ≥ 2^64 then "bad-op" else fmtSum (pocketClassesSummary short st p n)
+    | _, _, _, _ => "bad-op"
   | ["niso", d, st] =>
     match deckOf d, num? st with
     | some short, some st => table short RP.Gen.n_isomorphisms_Std RP.Gen.n_isomorphisms_Short st
